@@ -79,8 +79,8 @@ CLAIMED["C11"] = dict(
 
 CLAIMED["C12"] = dict(
     text="The listener machine keeps the implementation's two process-wide tables as state that persists between loads. TLC explores every history "
-         "of up to K loads over 15 scripts (valid, template, tdm, failing at each stage incl. inside loops/includes/metadata, scripts whose options "
-         "mention names) and checks Independent: every outcome equals the outcome from a pristine process; a teeth run with the clearing switched "
+         "of up to K loads over 18 scripts (valid, template, tdm, failing at each stage incl. inside loops/includes/metadata, scripts whose options "
+         "mention names, a nested include), with the included files edited or not between two loads (file-system epochs), and checks Independent: every outcome equals the outcome from a pristine process; a teeth run with the clearing switched "
          "off must find the counterexample. Each history is replayed in a freshly forked interpreter with real files; every outcome is compared with "
          "the specification's and the returned programs must share no mutable object.",
     note="Trusted: TLC, renderer. Histories of length 2 (quick) / 3 (thorough) over the menu.",
@@ -141,16 +141,18 @@ CLAIMED["C07"] = dict(
 
 CLAIMED["C16"] = dict(
     text="BBGraph defines wires (modes and measured registers), consecutive-on-wire edges, reachability and chains. TLC enumerates every program of up "
-         "to 3 operations over 3 wires (thorough also 4 over 2) from a 38-operation menu and proves on the model: edges point forward, j is reachable "
+         "to 3 operations over 3 wires (thorough also 4 over 2) from a 41-operation menu (incl. template parameters) and proves on the model: edges point forward, j is reachable "
          "from i iff an increasing chain of operations successively shares a wire, every topological order keeps the order on every wire. Each program "
          "is built through the API and to_DiGraph's node set and labels, edge direction, acyclicity, REACHABILITY relation (not the edge list) and "
-         "topological orders are compared with the specification.",
+         "topological orders are compared with the specification, under several object histories (second conversion, instance of an already "
+         "converted template, operation list reversed in place: expected graph = TLC's for the reversed sequence).",
     note="Trusted: TLC, networkx (descendants, topological sorts). Exhaustive within the stated bound.",
     technique="TLC exhaustive enumeration of programs with the graph specification + comparison of to_DiGraph's reachability relation",
     design="7/C16")
 CLAIMED["C17"] = dict(
     text="BBMatch defines matching declaratively (same labelled operations with the same order on every mode; affine arguments solved per parameter, "
-         "solutions must agree). TLC checks for 5 templates, 2 rational environments and EVERY reordering of the instance that keeps per-mode order "
+         "solutions must agree). TLC checks for 5 hand-written templates with 2 rational environments, all 131 five-operation templates over {R|0, R|1, BS|[0,1]} with at "
+         "least two two-mode gates, and EVERY reordering of the instance that keeps per-mode order "
          "that Match returns the environment, and that every single structural edit is rejected. The harness replays each case on the real "
          "match_template (plus random decimal environments, version/target edits) and compares results / TemplateError.",
     note="Trusted: TLC, SymPy's solve. Decimal environments are harness-chosen; the spec statement is generic in the values.",
@@ -158,9 +160,9 @@ CLAIMED["C17"] = dict(
     design="7/C17")
 
 CLAIMED["C13"] = dict(
-    text="BBObjects models programs as objects over a heap of mutable cells (operation dicts, argument lists, keyword dicts, arrays, variable dict). "
-         "TLC explores every history of API calls (dumps, attribute reads, to_DiGraph, match_template, template calls creating instances, five kinds "
-         "of mutation of an instance) up to a depth and checks the action properties Pure (read-only actions leave the content of every object "
+    text="BBObjects models programs as objects over a heap of mutable cells (operation dicts, argument lists, keyword dicts, arrays, variable and option dicts, feed-forward transforms). "
+         "TLC explores every history of API calls (dumps, attribute reads, to_DiGraph, match_template, template calls creating instances, eight kinds "
+         "of mutation of an instance incl. the register list of a feed-forward argument) up to a depth and checks the action properties Pure (read-only actions leave the content of every object "
          "unchanged) and OnlyTargetChanges, and the invariant Independent (no cell reachable from two objects); two teeth runs (to_DiGraph filling "
          "missing args; shallow instances) must yield counterexamples. Every history is replayed on real objects with a deep digest (structure + "
          "dumps text) of every live object after every action, and final contents are compared with the specification's heap.",
